@@ -41,6 +41,7 @@ pub struct StunDecodeError { _p: () }
 //@item! stun_agent :: struct StunPacket
 impl StunPacket {
     pub open spec fn view(&self) -> Seq<u8> { self.0.buffer@.subrange(0, self.0.size as int) }
+//@import reasm :: stun_agent :: impl StunPacket > fn new
 }
 impl Clone for StunPacket {
     // derived Clone = Arc::clone: the same shared, immutable packet
